@@ -566,6 +566,8 @@ class Unit:
         text = R.r18_enumerate(text, log)
         if 'R19' in rules:
             text = R.r19_extend_cloned(text, log)
+        if 'R20' in rules:
+            text = R.r20_extend_taken(text, log)
         if 'R1' in rules:
             text = R.r1_erase_guards(text, log, 'selfmut' in flags)
             text = R.r1_erase_ctor(text, log)
